@@ -33,6 +33,9 @@ STRFUNCS2 = ["contains", "startsWith", "endsWith", "matches"]
 MACROS = ["all", "exists", "exists_one", "map", "filter"]
 PREDICATES = ["v", "v > 1", 'v == "a"', "1 / v > 0", "true", "1"]
 
+EXTREME_RECEIVERS = [("lit", "timestamp", 'timestamp("9999-12-31T23:59:59Z")'), ("lit", "timestamp", 'timestamp("0001-01-01T00:00:00Z")'),
+                     ("raw", "double", "1.0 / 0.0"), ("raw", "double", "-1.0 / 0.0"), ("lit", "double", "1e400"), ("lit", "int", "9223372036854775807")]
+
 # error leaves, one per failing mechanism (DESIGN C02)
 ERROR_LEAVES = [
     ("ZeroDivisionError", "1 / 0 > 0"),
@@ -44,6 +47,7 @@ ERROR_LEAVES = [
     ("Overflow", "9223372036854775807 + 1 > 0"),
     ("Undeclared", "nope"),
     ("ValueError-subclass", 'timestamp("bad") == timestamp("bad")'),
+    ("OverflowError", "int(1e400) > 0"),
 ]
 
 
@@ -247,6 +251,14 @@ def level1(leafset=None, reduced=None):
         for a in R:
             for b in R:
                 out.append(("cond", c, a, b))
+    # receivers at the edge of the representable range, in method form (accessors with a zone that
+    # pushes the local date out of years 1..9999; conversions written as methods)
+    for recv in EXTREME_RECEIVERS:
+        for f in ACCESSORS:
+            for z in ('"+01:00"', '"-00:01"', '"Europe/Paris"', '"+14:00"', '"-14:00"'):
+                out.append(("meth", recv, f, ("lit", "string", z)))
+        for f in ("int", "uint", "string", "size", "double"):
+            out.append(("meth", recv, f))
     return out
 
 
